@@ -69,9 +69,22 @@ pub fn run_conc(_id: &str, toks: &[&str]) -> String {
     let parts: Vec<&[&str]> = toks.split(|t| *t == ";").collect();
     let spec0 = ustr(&unhex(parts[0][0]));
     let probes: Vec<String> = parts[0][1].split(',').map(|h| ustr(&unhex(h))).collect();
+    // a call is <hex spec> (set_new_spec), U<hex spec> (push_temp_spec) or O (pop_temp_spec)
     let threads: Vec<Vec<String>> = parts[1][0]
         .split('|')
-        .map(|t| if t == "-" { vec![] } else { t.split(',').map(|h| ustr(&unhex(h))).collect() })
+        .map(|t| {
+            if t == "-" {
+                vec![]
+            } else {
+                t.split(',')
+                    .map(|h| match h.strip_prefix('U') {
+                        Some(rest) => format!("U{}", ustr(&unhex(rest))),
+                        None if h == "O" => "O".to_string(),
+                        None => format!("S{}", ustr(&unhex(h))),
+                    })
+                    .collect()
+            }
+        })
         .collect();
     let schedule: Vec<usize> = parts[2].first().map_or(vec![], |s| s.chars().map(|c| c.to_digit(10).unwrap() as usize).collect());
     let (log, handle) = Logger::with(spec_of(&spec0))
@@ -87,12 +100,16 @@ pub fn run_conc(_id: &str, toks: &[&str]) -> String {
     }
     let mut joins = vec![];
     for (tid, calls) in threads.iter().enumerate() {
-        let h = handle.clone();
+        let mut h = handle.clone();
         let calls = calls.clone();
         joins.push(std::thread::spawn(move || {
             TID.with(|t| t.set(Some(tid)));
             for c in calls {
-                h.set_new_spec(spec_of(&c));
+                match c.split_at(1) {
+                    ("U", spec) => h.push_temp_spec(spec_of(spec)),
+                    ("O", _) => h.pop_temp_spec(),
+                    (_, spec) => h.set_new_spec(spec_of(spec)),
+                }
             }
             let (m, cv) = ctl();
             let mut g = m.lock().unwrap();
